@@ -68,7 +68,7 @@ claim("C20", "PBT (rapid), model-based: generated histories of queries sharing o
       "No ORDER BY/GROUP BY/LIMIT/joins (evaluation order unspecified there); WHERE does not read variables.",
       "DESIGN.md 4/C20")
 
-claim("C11", "PBT (rapid): 33 wide query constructs x Wrapped x injected part-way failures x re-execution; invariant = cycle-safe structural comparison of the live input against a deep snapshot",
+claim("C11", "PBT (rapid): 47 wide query constructs x Wrapped x injected part-way failures x re-execution; invariant = cycle-safe structural comparison of the live input against a deep snapshot",
       "Generated-input search over every clause/composition form of the grammar (filters, subqueries, EXISTS, CTEs, joins, ORDER BY, aggregates), with and without an injected failure at a generated invocation index; the input document is compared with a snapshot after New+Exec; held on everything explored.",
       "Fault positions are those where the engine accepts a function call; k is sampled per case here (C19 enumerates every k).",
       "DESIGN.md 4/C11")
